@@ -252,6 +252,9 @@ SECTION_JSON = {
     "ops_list": {"SYMMETRIC_KEY": ["GET"]}, "ops_string": {"SYMMETRIC_KEY": "GET"},
     "badop": {"SYMMETRIC_KEY": {"NOPE": "ALLOW_ALL"}}, "badperm": {"SYMMETRIC_KEY": {"GET": "MAYBE"}},
     "perm_number": {"SYMMETRIC_KEY": {"GET": 5}},
+    "ops_number": {"SYMMETRIC_KEY": 7}, "ops_null": {"SYMMETRIC_KEY": None},
+    "perm_list": {"SYMMETRIC_KEY": {"GET": ["ALLOW_OWNER", "ALLOW_ALL"]}}, "perm_object": {"SYMMETRIC_KEY": {"GET": {"ALLOW_ALL": True}}},
+    "perm_null": {"SYMMETRIC_KEY": {"GET": None}}, "perm_bool": {"SYMMETRIC_KEY": {"GET": True}},
 }
 
 
